@@ -379,11 +379,14 @@ fn run_case(case: &Case, env: &WorkerEnv) -> Verdict {
     }
     // the working directory is the root of this worker's private jail: wipe all of it, since earlier runs
     // may have created entries anywhere below it through relative paths
+    sim::phase("harness: wiping the jail");
     wipe_jail();
+    sim::phase("harness: preparing the run");
     let _ = std::fs::create_dir_all("run/c07");
     sim::reset(Some(Box::new(EnvStub)));
     sim::with_core(|c| {
         c.budget = STEP_BUDGET;
+        c.byte_budget = 256 << 20;
         c.pre_hook = Some(alloc_cap);
         for n in [
             "std::time::CurrentTimeMillies", "std::process::ProcessID", "std::env::GetOSName", "std::env::GetOSRelease", "std::env::GetOSVersion", "std::env::GetOSFamily", "std::env::UName", "std::net::Hostname", "std::env::GetHomeDirectory",
@@ -461,6 +464,12 @@ fn run_case(case: &Case, env: &WorkerEnv) -> Verdict {
                     c.probe("writer-fault-fired");
                 }
             });
+            if budget_hit && sim::with_core(|c| c.byte_budget_hit) {
+                // values or output growing without bound (e.g. dump_state inside a loop whose bookkeeping grows):
+                // every command returned, the run as a whole is a loop or an explosion of sizes, not a hang
+                sim::with_core(|c| c.probe("byte-budget"));
+                return Verdict::Inconclusive { reason: "byte budget: outputs of more than 256 MiB in one run".to_string() };
+            }
             if budget_hit {
                 let (loops, last_cmd, nested) = log_info;
                 if nested >= STEP_BUDGET / 2 && !last_cmd.contains("flowcontrol") && last_cmd != "end" {
